@@ -37,6 +37,9 @@ int main(int argc, char** argv) {
   add_unit("qlerp", 9, 4, [](auto const* x, auto* o) { stq(o, glm::lerp(ldq(x), ldq(x + 4), x[8])); });
   reg_spin<-3>(); reg_spin<-2>(); reg_spin<-1>(); reg_spin<0>(); reg_spin<1>(); reg_spin<2>(); reg_spin<3>();
   add_unit("shortMix", 9, 4, [](auto const* x, auto* o) { stq(o, glm::shortMix(ldq(x), ldq(x + 4), x[8])); });
+  // dual-quaternion linear blend: x = (real 0..3, dual 4..7), y = (real 8..11, dual 12..15), a = 16
+  add_unit("dqlerp", 17, 8, [](auto const* x, auto* o) { using T = TY(o); glm::tdualquat<T, glm::defaultp> X(ldq(x), ldq(x + 4)), Y(ldq(x + 8), ldq(x + 12));
+    auto r = glm::lerp(X, Y, x[16]); stq(o, r.real); stq(o + 4, r.dual); });
   add_unit("fastMix", 9, 4, [](auto const* x, auto* o) { stq(o, glm::fastMix(ldq(x), ldq(x + 4), x[8])); });
   return unit_main(argc, argv);
 }
